@@ -1,0 +1,101 @@
+//go:build verif
+
+package tbtc
+
+import (
+	"crypto/ecdsa"
+
+	"github.com/keep-network/keep-common/pkg/persistence"
+	"github.com/keep-network/keep-core/pkg/chain"
+	"github.com/keep-network/keep-core/pkg/protocol/group"
+	"github.com/keep-network/keep-core/pkg/tecdsa"
+)
+
+// Thin exported wrappers used by the /verif harness (property C38). They
+// expose the unexported walletRegistry and signer. No behaviour of their own.
+
+// VerifC38Signer wraps the unexported signer.
+type VerifC38Signer struct{ s *signer }
+
+// VerifC38NewSigner calls newSigner.
+func VerifC38NewSigner(
+	walletPublicKey *ecdsa.PublicKey,
+	walletSigningGroupOperators []chain.Address,
+	signingGroupMemberIndex group.MemberIndex,
+	privateKeyShare *tecdsa.PrivateKeyShare,
+) *VerifC38Signer {
+	return &VerifC38Signer{newSigner(
+		walletPublicKey,
+		walletSigningGroupOperators,
+		signingGroupMemberIndex,
+		privateKeyShare,
+	)}
+}
+
+// Marshal calls signer.Marshal.
+func (v *VerifC38Signer) Marshal() ([]byte, error) { return v.s.Marshal() }
+
+// WalletPublicKey returns the public key of the signer's wallet.
+func (v *VerifC38Signer) WalletPublicKey() *ecdsa.PublicKey {
+	return v.s.wallet.publicKey
+}
+
+// VerifC38Registry wraps the unexported walletRegistry.
+type VerifC38Registry struct{ wr *walletRegistry }
+
+// VerifC38NewRegistry calls newWalletRegistry.
+func VerifC38NewRegistry(
+	handle persistence.ProtectedHandle,
+	calculateWalletIdFunc CalculateWalletIdFunc,
+) (*VerifC38Registry, error) {
+	wr, err := newWalletRegistry(handle, calculateWalletIdFunc)
+	if err != nil {
+		return nil, err
+	}
+	return &VerifC38Registry{wr}, nil
+}
+
+// RegisterSigner calls registerSigner.
+func (v *VerifC38Registry) RegisterSigner(s *VerifC38Signer) error {
+	return v.wr.registerSigner(s.s)
+}
+
+// ArchiveWallet calls archiveWallet.
+func (v *VerifC38Registry) ArchiveWallet(walletPublicKeyHash [20]byte) error {
+	return v.wr.archiveWallet(walletPublicKeyHash)
+}
+
+// GetWalletsPublicKeys calls getWalletsPublicKeys.
+func (v *VerifC38Registry) GetWalletsPublicKeys() []*ecdsa.PublicKey {
+	return v.wr.getWalletsPublicKeys()
+}
+
+// GetSigners calls getSigners.
+func (v *VerifC38Registry) GetSigners(
+	walletPublicKey *ecdsa.PublicKey,
+) []*VerifC38Signer {
+	signers := v.wr.getSigners(walletPublicKey)
+	result := make([]*VerifC38Signer, len(signers))
+	for i, s := range signers {
+		result[i] = &VerifC38Signer{s}
+	}
+	return result
+}
+
+// GetWalletByPublicKeyHash calls getWalletByPublicKeyHash and returns the
+// public key of the wallet found.
+func (v *VerifC38Registry) GetWalletByPublicKeyHash(
+	walletPublicKeyHash [20]byte,
+) (*ecdsa.PublicKey, bool) {
+	w, ok := v.wr.getWalletByPublicKeyHash(walletPublicKeyHash)
+	return w.publicKey, ok
+}
+
+// GetWalletByID calls getWalletByID and returns the public key of the wallet
+// found.
+func (v *VerifC38Registry) GetWalletByID(
+	walletID [32]byte,
+) (*ecdsa.PublicKey, bool) {
+	w, ok := v.wr.getWalletByID(walletID)
+	return w.publicKey, ok
+}
